@@ -22,6 +22,7 @@ type c17Case struct {
 	Blanks     []int      `json:"blanks"` // blanks after "<<", between words and before ">>" (consumed in order, default 1 between words, 0 at the edges)
 	Registered bool       `json:"registered"`
 	Earlier    string     `json:"earlier,omitempty"` // a registration under the same name that the handler replaces: "", "raw", "converted"
+	Decoy      bool       `json:"decoy,omitempty"`   // another runner of the process registers a handler under the same name afterwards
 }
 
 func (c c17Case) source() string {
@@ -114,6 +115,14 @@ func runC17(c c17Case) Verdict {
 			}
 		}
 		dr.AddCommand(c.Name, handler(c.Name))
+	}
+	if c.Decoy {
+		// what the host registers on another runner is that runner's business (and an unregistered name stays unknown here)
+		other, err := ysgo.NewDialogueRunner(nil, "abc", strings.NewReader(src))
+		if err != nil {
+			return failf("the script does not load the second time: %v", err)
+		}
+		other.AddCommand(c.Name, handler("the-handler-of-ANOTHER-runner-"+c.Name))
 	}
 	// decoys: a handler under "stop", under the keywords and under the built-in must never be used instead
 	dr.AddCommand("stop", handler("stop"))
@@ -235,7 +244,8 @@ func genC17Word(t *rapid.T) TextPart {
 		return TextPart{S: rapid.StringMatching(`-?[0-9]{1,4}(\.[0-9]{1,3})?`).Draw(t, "decimal")}
 	default:
 		return TextPart{E: rapid.SampledFrom([]*Expr{num("4"), bin("+", num("1"), num("2")), varRef("n"), boolean(false), varRef("b"), bin("<", varRef("n"), num("3")), str("two words"), varRef("s"),
-			bin("+", varRef("s"), str("!")), neg(varRef("n")), str("12"), str("true")}).Draw(t, "expr")}
+			bin("+", varRef("s"), str("!")), neg(varRef("n")), str("12"), str("true"),
+			neg(num("2")), neg(par(num("1.5"))), not(boolean(true)), neg(neg(num("3"))), bin("-", num("0"), num("2"))}).Draw(t, "expr")}
 	}
 }
 
@@ -294,6 +304,7 @@ var c17Args = Register(Prop[c17Case]{
 		if rapid.Bool().Draw(t, "blanks") {
 			c.Blanks = rapid.SliceOfN(rapid.IntRange(0, 2), 0, n+2).Draw(t, "blanks")
 		}
+		c.Decoy = rapid.IntRange(0, 3).Draw(t, "decoy") == 0
 		return c
 	},
 	Run:    runC17,
@@ -311,7 +322,7 @@ func TestC17WordTable(t *testing.T) {
 			for _, name := range c17Names {
 				for _, w := range words {
 					for _, shape := range [][]TextPart{{{S: w}}, {{S: w}, {S: "mid"}, {E: num("1")}}, {{E: str("x")}, {S: w}}} {
-						if !yield(c17Case{Name: name, Words: shape, Registered: true}) {
+						if !yield(c17Case{Name: name, Words: shape, Registered: true, Decoy: len(w)%2 == 0}) {
 							return
 						}
 					}
